@@ -118,6 +118,8 @@ type gl struct {
 	scanTok     string                  // inside `for sc.Scan() {}`: the Lean name of the current token
 	wrMethods   map[string]string       // "Type.Method" of a translated writer method (io.Writer = Wr) -> its Lean name
 	usesRoom    bool                    // the function hands a *bytes.Buffer to a translated writer method: parameter `room`
+	closureLast ast.Stmt                // last statement of the iter.Seq2 closure being translated
+	inRangeFunc bool                    // inside the body of `for k, v := range <translated iterator>(…)`
 	curBody     *ast.BlockStmt          // body of the function being translated (funcOrMethod)
 	scanLoops   int                     // `for sc.Scan()` loops translated in the current function
 	reLocals    map[types.Object]string // locals holding regexp.MustCompile(<constant>): the pattern
@@ -539,11 +541,34 @@ func (g *gl) heapUses(fd *ast.FuncDecl) bool {
 						use = true
 					}
 				}
+				if ln, ok := g.methodLean(fn); ok {
+					if _, known := g.heapFuncs[ln]; known {
+						use = true
+					}
+				}
 			}
 		}
 		return true
 	})
 	return use
+}
+
+// methodLean: the translated name of a method of this package, looked up by the name of its receiver type
+func (g *gl) methodLean(fn *types.Func) (string, bool) {
+	sig, ok := fn.Type().(*types.Signature)
+	if !ok || sig.Recv() == nil {
+		return "", false
+	}
+	rt := sig.Recv().Type()
+	if p, ok := rt.(*types.Pointer); ok {
+		rt = p.Elem()
+	}
+	n, ok := rt.(*types.Named)
+	if !ok {
+		return "", false
+	}
+	ln, ok := g.methodNames[n.Obj().Name()+"."+fn.Name()]
+	return ln, ok
 }
 
 // isHeapPtr: t is *heapT
@@ -615,6 +640,9 @@ func (g *gl) heapWrites(body ast.Node) bool {
 					if ln, ok := g.methodNames[g.heapT+"."+fn.Name()]; ok && g.heapFuncs[ln] {
 						wr = true
 					}
+					if ln, ok := g.methodLean(fn); ok && g.heapFuncs[ln] {
+						wr = true
+					}
 				}
 			}
 		}
@@ -637,6 +665,7 @@ func (g *gl) opaqueName(t types.Type) string {
 }
 
 type glFunc struct {
+	itemT     string   // iter.Seq2 closures: the Lean type of the (item, error) pairs handed to the consumer
 	outLists  int      // number of trailing out-parameter lists ([]*int), handed back after the results
 	accParams []string // names of accumulator parameters (*bytes.Buffer …): handed back as (additional) results
 	recvState []string // receiver fields it takes as parameters and hands back after its results (records mode)
@@ -687,6 +716,9 @@ func (g *gl) leanType(t types.Type) string {
 	}
 	if g.ioReaderBuf {
 		if n, ok := t.(*types.Named); ok && n.Obj().Pkg() != nil && n.Obj().Pkg().Path() == "io" && n.Obj().Name() == "Reader" {
+			if g.byteRd {
+				return "ByteRd"
+			}
 			return "BufRd"
 		}
 	}
@@ -1485,6 +1517,13 @@ func (g *gl) binary(v *ast.BinaryExpr) ex {
 		if isErr(lt) && (v.Op == token.EQL || v.Op == token.NEQ) {
 			return infix(map[token.Token]string{token.EQL: "==", token.NEQ: "!="}[v.Op])
 		}
+		if g.isRecPtr(lt) && isNilIdent(v.Y) && g.rdKind == "" && (v.Op == token.EQL || v.Op == token.NEQ) {
+			// p == nil for a record pointer (an Option)
+			if v.Op == token.EQL {
+				return ex{text: "Option.isNone " + l.arg()}
+			}
+			return ex{text: "Option.isSome " + l.arg()}
+		}
 		if b, ok := lt.Underlying().(*types.Basic); ok && (b.Kind() == types.Bool || b.Kind() == types.UntypedBool) && (v.Op == token.EQL || v.Op == token.NEQ) {
 			return infix(map[token.Token]string{token.EQL: "==", token.NEQ: "!="}[v.Op])
 		}
@@ -2044,25 +2083,121 @@ func (g *gl) heapCall(c *ast.CallExpr) (string, bool, bool) {
 	return strings.Join(parts, " "), wr, true
 }
 
-// recvStateCall: c is r.m(args) for the receiver r of the method being translated and a translated method m
-// of the same type that threads the receiver's fields; returns the call and the caller's field variables
-func (g *gl) recvStateCall(c *ast.CallExpr) (string, []string, bool) {
-	sel, ok := c.Fun.(*ast.SelectorExpr)
-	if !ok {
-		return "", nil, false
-	}
-	id, ok := sel.X.(*ast.Ident)
-	if !ok || g.structLoc[g.objOf(id)] == nil || g.recLocal[g.objOf(id)] {
-		return "", nil, false
-	}
-	fn, ok := g.info.Uses[sel.Sel].(*types.Func)
+// ctorFields: fid names a function of this package whose whole body is `return &T{…}` with one parameter; the
+// fields of T and, for each, the Lean term of its initial value with the parameter replaced by arg
+func (g *gl) ctorFields(fid *ast.Ident, arg ast.Expr) ([]*types.Var, []string, bool) {
+	fn, ok := g.info.Uses[fid].(*types.Func)
 	if !ok || fn.Pkg() != g.pkg {
-		return "", nil, false
+		return nil, nil, false
 	}
-	lname, ok := g.methodNames["reader."+fn.Name()]
+	fd, _ := g.findFunc(fn.Name(), 0)
+	if fd == nil || fd.Recv != nil || fd.Body == nil || len(fd.Body.List) != 1 || fd.Type.Params.NumFields() != 1 {
+		return nil, nil, false
+	}
+	ret, ok := fd.Body.List[0].(*ast.ReturnStmt)
+	if !ok || len(ret.Results) != 1 {
+		return nil, nil, false
+	}
+	u, ok := ret.Results[0].(*ast.UnaryExpr)
+	if !ok || u.Op != token.AND {
+		return nil, nil, false
+	}
+	cl, ok := u.X.(*ast.CompositeLit)
+	if !ok {
+		return nil, nil, false
+	}
+	st, ok := g.typeOf(cl).Underlying().(*types.Struct)
+	if !ok {
+		return nil, nil, false
+	}
+	pname := fd.Type.Params.List[0].Names[0].Name
+	init := func(e ast.Expr) (string, bool) {
+		switch x := e.(type) {
+		case *ast.CallExpr: // bufio.NewReader(<param>)
+			if sel, ok := x.Fun.(*ast.SelectorExpr); ok && sel.Sel.Name == "NewReader" && len(x.Args) == 1 {
+				if pk, ok := sel.X.(*ast.Ident); ok {
+					if pn, ok := g.info.Uses[pk].(*types.PkgName); ok && pn.Imported().Path() == "bufio" {
+						if a, ok := x.Args[0].(*ast.Ident); ok && a.Name == pname {
+							return g.expr(arg).opnd(), true
+						}
+					}
+				}
+			}
+		case *ast.UnaryExpr: // &bytes.Buffer{}
+			if c2, ok := x.X.(*ast.CompositeLit); ok && x.Op == token.AND && len(c2.Elts) == 0 && isAccum(g.typeOf(x)) {
+				return "[]", true
+			}
+		}
+		return "", false
+	}
+	var fs []*types.Var
+	inits := make([]string, st.NumFields())
+	for i := 0; i < st.NumFields(); i++ {
+		fs = append(fs, st.Field(i))
+	}
+	for i, el := range cl.Elts {
+		k := i
+		val := el
+		if kv, ok := el.(*ast.KeyValueExpr); ok {
+			k = -1
+			for j := 0; j < st.NumFields(); j++ {
+				if st.Field(j).Name() == kv.Key.(*ast.Ident).Name {
+					k = j
+				}
+			}
+			val = kv.Value
+		}
+		if k < 0 || k >= st.NumFields() {
+			return nil, nil, false
+		}
+		txt, ok := init(val)
+		if !ok {
+			return nil, nil, false
+		}
+		inits[k] = txt
+	}
+	for i := range inits {
+		if inits[i] == "" {
+			inits[i] = bareZero(g.zero(st.Field(i).Type()))
+		}
+	}
+	return fs, inits, true
+}
+
+// rangeFunc translates `for k, v := range Iter(args) { body }` inside an iter.Seq2 closure, where Iter is a translated
+// iter.Seq2 function of this package.  Go runs Iter with the loop body as its consumer: `break`/`return` answer
+// false, `continue` and falling off the end answer true.  Consumers here are given the whole history of items, so
+// the body becomes a pure step function (log, item) -> (log', go on?), the consumer handed to Iter replays the history
+// through it, and the final log is the replay of the items Iter handed over.  An Iter that went on after the body
+// had answered false is a run-time panic in Go (`none`).  The loop must be the closure's last statement.
+func (g *gl) rangeFunc(w *wr, v *ast.RangeStmt) bool {
+	c, ok := v.X.(*ast.CallExpr)
+	if !ok || !g.yield2 || g.rdKind != "" || g.inRangeFunc {
+		return false
+	}
+	fid, ok := c.Fun.(*ast.Ident)
+	if !ok {
+		return false
+	}
+	fn, ok := g.info.Uses[fid].(*types.Func)
+	if !ok || fn.Pkg() != g.pkg {
+		return false
+	}
+	lname := fid.Name
+	if a, ok := g.funcAlias[lname]; ok {
+		lname = a
+	}
 	callee := g.funcs[lname]
-	if !ok || callee == nil || !callee.found || len(callee.recvState) == 0 {
-		return "", nil, false
+	if callee == nil || !callee.found || !g.iterFuncs[lname] || callee.itemT == "" {
+		return false
+	}
+	if ast.Stmt(v) != g.closureLast {
+		g.die(v, "range over an iterator that is not the closure's last statement")
+	}
+	kid, ok1 := v.Key.(*ast.Ident)
+	vid, ok2 := v.Value.(*ast.Ident)
+	if !ok1 || !ok2 {
+		g.die(v, "range over an iterator: loop variables")
 	}
 	parts := []string{lname}
 	for _, k := range callee.exts {
@@ -2073,6 +2208,83 @@ func (g *gl) recvStateCall(c *ast.CallExpr) (string, []string, bool) {
 		g.usesFuel = true
 		parts = append(parts, "fuel")
 	}
+	for _, a := range c.Args {
+		x := g.expr(a)
+		if x.act {
+			g.die(a, "iterator argument with effects")
+		}
+		parts = append(parts, x.arg())
+	}
+	bw := &wr{b: &bytes.Buffer{}, ind: w.ind + 1}
+	bw.line("let mut log := log")
+	if kid.Name != "_" {
+		bw.line("let " + g.nameOf(g.objOf(kid)) + " := item.1")
+	}
+	if vid.Name != "_" {
+		bw.line("let " + g.nameOf(g.objOf(vid)) + " := item.2")
+	}
+	g.inRangeFunc = true
+	g.loops = append(g.loops, "rangefunc")
+	g.block(bw, v.Body.List)
+	g.loops = g.loops[:len(g.loops)-1]
+	g.inRangeFunc = false
+	bw.line("return (log, true)")
+	if strings.Contains(bw.b.String(), "←") {
+		g.die(v, "range over an iterator: the loop body can panic")
+	}
+	w.line("let step : List " + g.yieldT + " → " + callee.itemT + " → (List " + g.yieldT + " × Bool) := fun log item => Id.run do")
+	w.b.WriteString(bw.b.String())
+	w.line("let log0 := log")
+	w.line("let run : List " + callee.itemT + " → (List " + g.yieldT + " × Bool) := fun h => h.foldl (fun st item => if st.2 then step st.1 item else st) (log0, true)")
+	w.line("let inner ← " + strings.Join(parts, " ") + " (fun h => (run h).2)")
+	w.line("if !(run inner.dropLast).2 then")
+	w.ind++
+	w.line("(none : Option Unit)") // the iterator went on after the loop body had ended the loop: Go panics
+	w.ind--
+	w.line("log := (run inner).1")
+	return true
+}
+
+// recvStateCall: c is r.m(args) for the receiver r of the method being translated and a translated method m
+// of the same type that threads the receiver's fields; returns the call and the caller's field variables
+func (g *gl) recvStateCall(c *ast.CallExpr) (string, []string, bool) {
+	txt, flds, _, ok := g.recvStateCallH(c)
+	return txt, flds, ok
+}
+
+// recvStateCallH: as recvStateCall; the third result says that the callee also hands back the heap (right after
+// its own results, before the receiver's fields)
+func (g *gl) recvStateCallH(c *ast.CallExpr) (string, []string, bool, bool) {
+	sel, ok := c.Fun.(*ast.SelectorExpr)
+	if !ok {
+		return "", nil, false, false
+	}
+	id, ok := sel.X.(*ast.Ident)
+	if !ok || g.structLoc[g.objOf(id)] == nil || g.recLocal[g.objOf(id)] {
+		return "", nil, false, false
+	}
+	fn, ok := g.info.Uses[sel.Sel].(*types.Func)
+	if !ok || fn.Pkg() != g.pkg {
+		return "", nil, false, false
+	}
+	lname, ok := g.methodNames["reader."+fn.Name()]
+	callee := g.funcs[lname]
+	if !ok || callee == nil || !callee.found || len(callee.recvState) == 0 {
+		return "", nil, false, false
+	}
+	parts := []string{lname}
+	for _, k := range callee.exts {
+		g.extUsed[k] = true
+		parts = append(parts, g.extFuncs[k].param)
+	}
+	if callee.fuel {
+		g.usesFuel = true
+		parts = append(parts, "fuel")
+	}
+	hwr, huse := g.heapFuncs[lname]
+	if g.heapT != "" && huse {
+		parts = append(parts, "heap")
+	}
 	var flds []string
 	for _, f := range callee.recvState {
 		flds = append(flds, id.Name+"_"+f)
@@ -2081,7 +2293,7 @@ func (g *gl) recvStateCall(c *ast.CallExpr) (string, []string, bool) {
 	for _, a := range c.Args {
 		parts = append(parts, g.expr(a).arg())
 	}
-	return strings.Join(parts, " "), flds, true
+	return strings.Join(parts, " "), flds, g.heapT != "" && huse && hwr, true
 }
 
 // readStringCall: c is <recv>.<field>.ReadString(delim) on a receiver field of type *bufio.Reader
@@ -2613,12 +2825,19 @@ func (g *gl) stmt(w *wr, s ast.Stmt) {
 				if tup, ok := g.typeOf(c).(*types.Tuple); ok && tup.Len() == len(v.Lhs) {
 					t := g.tmp()
 					nproj := tup.Len()
-					if txt, flds, ok := g.recvStateCall(c); ok {
-						// a, b := r.method(): the callee hands back the receiver's fields after its results
+					if txt, flds, hwr, ok := g.recvStateCallH(c); ok {
+						// a, b := r.method(): the callee hands back (the heap and) the receiver's fields after its results
 						w.line("let " + t + " ← " + txt)
-						nproj = tup.Len() + len(flds)
+						off := tup.Len()
+						if hwr {
+							off++
+						}
+						nproj = off + len(flds)
+						if hwr {
+							w.line("heap := " + tupleProj(t, tup.Len(), nproj))
+						}
 						for k, fl := range flds {
-							w.line(fl + " := " + tupleProj(t, tup.Len()+k, nproj))
+							w.line(fl + " := " + tupleProj(t, off+k, nproj))
 						}
 					} else if fld, delim, ok := g.readStringCall(c); ok {
 						// line, err := r.r.ReadString(d): the reader field is a state that the call advances
@@ -2842,6 +3061,24 @@ func (g *gl) stmt(w *wr, s ast.Stmt) {
 				w.line("let mut " + g.nameOf(g.objOf(id)) + " : List UInt8 := []")
 				return
 			}
+			if c, ok := v.Rhs[0].(*ast.CallExpr); ok && g.rdKind == "" && g.recT != nil && g.ioReaderBuf && len(c.Args) == 1 {
+				if fid, ok := c.Fun.(*ast.Ident); ok {
+					if fs, inits, ok := g.ctorFields(fid, c.Args[0]); ok {
+						// rd := newReader(r) where newReader is `return &reader{…}`: the reader is one mutable variable per field,
+						// a *bufio.Reader made from r is the remaining input of r, a fresh *bytes.Buffer is empty
+						for i, f := range fs {
+							g.takenMut[id.Name+"_"+f.Name()] = true
+							w.line("let mut " + id.Name + "_" + f.Name() + " : " + g.leanType(f.Type()) + " := " + inits[i])
+						}
+						var names []string
+						for _, f := range fs {
+							names = append(names, f.Name())
+						}
+						g.structLoc[g.objOf(id)] = names
+						return
+					}
+				}
+			}
 			if u, ok := v.Rhs[0].(*ast.UnaryExpr); ok && u.Op == token.AND && g.rdKind == "" && g.recT != nil && g.isRecPtr(g.typeOf(u)) {
 				// bed := &BED{N: n}: a record under construction, one variable per field
 				cl, ok := u.X.(*ast.CompositeLit)
@@ -2992,6 +3229,10 @@ func (g *gl) stmt(w *wr, s ast.Stmt) {
 		if v.Tok == token.CONTINUE && v.Label == nil {
 			for k := len(g.loops) - 1; k >= 0; k-- { // `continue` looks through switches
 				if g.loops[k] != "switch" {
+					if g.loops[k] == "rangefunc" {
+						w.line("return (log, true)") // the loop body ends, the iterator goes on
+						return
+					}
 					break
 				}
 			}
@@ -3020,6 +3261,9 @@ func (g *gl) stmt(w *wr, s ast.Stmt) {
 		}
 		if v.Tok == token.BREAK && v.Label == nil && len(g.loops) > 0 {
 			switch top := g.loops[len(g.loops)-1]; {
+			case top == "rangefunc":
+				w.line("return (log, false)") // the loop body tells the iterator to stop
+				return
 			case top == "for" || strings.HasPrefix(top, "for:"):
 				w.line("break")
 				return
@@ -3372,6 +3616,10 @@ func (g *gl) stmt(w *wr, s ast.Stmt) {
 			return
 		}
 		if g.yieldT != "" {
+			if len(v.Results) == 0 && g.inRangeFunc {
+				w.line("return (log, false)") // leaves the loop (and, the loop being the last statement, the function)
+				return
+			}
 			if len(v.Results) == 0 {
 				w.line("return log")
 				return
@@ -3876,6 +4124,9 @@ func (g *gl) forStmt(w *wr, v *ast.ForStmt) {
 func (g *gl) rangeStmt(w *wr, v *ast.RangeStmt) {
 	if v.Tok != token.DEFINE || v.Key == nil {
 		g.die(v, "range form")
+	}
+	if g.rangeFunc(w, v) {
+		return
 	}
 	if c, ok := v.X.(*ast.CallExpr); ok && g.xIter != nil && v.Value == nil && v.Tok == token.DEFINE {
 		// for b := range otherpkg.Iter(args): the items the (translated) iterator hands to a consumer that never
@@ -4550,6 +4801,10 @@ func (g *gl) funcOrMethod(recvType, goName, name, rel, placeholder string) {
 			g.yieldT = "(" + paren(g.leanType(g.yield2T[0])) + " × " + paren(g.leanType(g.yield2T[1])) + ")"
 			g.yieldName = "yield"
 			g.iterFuncs[name] = true
+			g.funcs[name].itemT = g.yieldT
+			if len(fl.Body.List) > 0 {
+				g.closureLast = fl.Body.List[len(fl.Body.List)-1]
+			}
 			params = append(params, "(yield : List "+g.yieldT+" → Bool)")
 			resT = "List " + g.yieldT
 			g.findMutated(fl.Body)
@@ -4645,6 +4900,12 @@ func (g *gl) funcOrMethod(recvType, goName, name, rel, placeholder string) {
 		g.block(w, body)
 		if g.yieldT != "" {
 			w.line("return log")
+		}
+		if g.yield2 && g.heapT != "" && g.heapUse && g.heapWr {
+			// the closure allocates: the heap it leaves behind is handed back next to the log
+			s := strings.ReplaceAll(w.b.String(), "return log\n", "return (log, heap)\n")
+			w.b.Reset()
+			w.b.WriteString(s)
 		}
 		if rt == nil && len(accNames) > 0 && !(g.heapT != "" && g.heapUse) {
 			// no result of its own: the accumulators it was given are what it returns
@@ -5582,6 +5843,11 @@ func goLean(repo, out string) {
 	g2b.method("reader", "nextToken", "newick_nextToken", "formats/newick", "def newick_nextToken (fuel : Nat) (r_r : ByteRd) (r_b : "+B+") : Option (("+B+") × GoErr × ByteRd × ("+B+")) := none")
 	g2b.method("reader", "read", "newick_read", "formats/newick", "def newick_read (strconv_ParseFloat : "+PFLOAT+") (fuel : Nat) (heap : "+NHEAP+") (r_r : ByteRd) (r_b : "+B+") : Option (Int × GoErr × ("+NHEAP+") × ByteRd × ("+B+")) := none")
 	w.WriteString(g2b.funcs["newick_read"].text + "\n")
+	// newick.Reader: the iter.Seq2 closure around newReader + read; the items are pointers into the heap handed back
+	g2b.ioReaderBuf = true
+	g2b.funcOrMethod("", "Reader", "newick_Reader", "formats/newick", "def newick_Reader (strconv_ParseFloat : "+PFLOAT+") (fuel : Nat) (heap : "+NHEAP+") (r : ByteRd) (yield : List (Int × GoErr) → Bool) : Option ((List (Int × GoErr)) × "+NHEAP+") := none")
+	g2b.ioReaderBuf = false
+	w.WriteString(g2b.funcs["newick_Reader"].text + "\n")
 	// formats/newick: the recursive writer.  The tree is only read: *Node is the model's `Newick.Tree`; the
 	// *bytes.Buffer is the bytes written so far; `%v` of a float64 distance is the parameter `fmt_float`
 	g2c := loadPkg(filepath.Join(repo, "formats", "newick"))
@@ -5636,6 +5902,10 @@ func goLean(repo, out string) {
 	g5b.funcAlias = map[string]string{"parseLine": "sam_parseLine"}
 	const SHT = "(((Option (List UInt8)) × (Option "+SAMT+")) × GoErr)"
 	g5b.funcOrMethod("", "ReaderHeader", "sam_ReaderHeader", "formats/sam", "def sam_ReaderHeader (hex_DecodeString : "+SHEX+") (strconv_Atoi : "+SATOI+") (strconv_ParseFloat : "+SPF+") (fuel : Nat) (r : BufRd) (yield : List "+SHT+" → Bool) : Option (List "+SHT+") := none")
+	// sam.Reader: ranges over ReaderHeader (range-over-func), forwards records and errors, drops header lines
+	const SIT = "((Option "+SAMT+") × GoErr)"
+	g5b.funcAlias["ReaderHeader"] = "sam_ReaderHeader"
+	g5b.funcOrMethod("", "Reader", "sam_Reader", "formats/sam", "def sam_Reader (hex_DecodeString : "+SHEX+") (strconv_Atoi : "+SATOI+") (strconv_ParseFloat : "+SPF+") (fuel : Nat) (r : BufRd) (yield : List "+SIT+" → Bool) : Option (List "+SIT+") := none")
 	for _, n := range g5b.order {
 		w.WriteString(g5b.funcs[n].text)
 		w.WriteString("\n")
@@ -5651,8 +5921,14 @@ func goLean(repo, out string) {
 	g8.extFuncs = map[string]extFunc{"strconv.Atoi": {"strconv_Atoi", ATOI}, "strconv.ParseUint": {"strconv_ParseUint", PUINT}}
 	g8.function("parseLine", "formats/bed", "def parseLine (strconv_Atoi : "+ATOI+") (strconv_ParseUint : "+PUINT+") (fields : "+BB+") : Option ((Option "+BEDT+") × GoErr) := none")
 	g8.method("reader", "read", "bed_read", "formats/bed", "def bed_read (strconv_Atoi : "+ATOI+") (strconv_ParseUint : "+PUINT+") (fuel : Nat) (r_r : BufRd) (r_nfields : Int) : Option ((Option "+BEDT+") × GoErr × BufRd × Int) := none")
+	// bed.Reader: the iter.Seq2 closure around newReader + read
+	g8.ioReaderBuf = true
+	g8.methodNames = map[string]string{"reader.read": "bed_read"}
+	const BIT = "((Option "+BEDT+") × GoErr)"
+	g8.funcOrMethod("", "Reader", "bed_Reader", "formats/bed", "def bed_Reader (strconv_Atoi : "+ATOI+") (strconv_ParseUint : "+PUINT+") (fuel : Nat) (r : BufRd) (yield : List "+BIT+" → Bool) : Option (List "+BIT+") := none")
+	g8.ioReaderBuf = false
 	g8.recT, g8.extFuncs = nil, nil
-	for _, n := range []string{"parseLine", "bed_read"} {
+	for _, n := range []string{"parseLine", "bed_read", "bed_Reader"} {
 		w.WriteString(g8.funcs[n].text)
 		w.WriteString("\n")
 	}
